@@ -298,7 +298,26 @@ def _root_path(e):
     return None
 
 
-def n2_alias_locals(fnode, keep=()):
+_REBOUND_ATTRS = [None]
+
+
+def rebound_attrs(model):
+    """attribute names that some function other than an __init__ assigns
+    (self.x = ..., obj.x += ...): an alias of such an attribute may go stale"""
+    if _REBOUND_ATTRS[0] is None or _REBOUND_ATTRS[0][0] is not model:
+        out = set()
+        for f in model.functions.values():
+            if f.name == '__init__':
+                continue
+            for n in ast.walk(f.node):
+                if isinstance(n, ast.Attribute) and isinstance(
+                        n.ctx, (ast.Store, ast.Del)):
+                    out.add(n.attr)
+        _REBOUND_ATTRS[0] = (model, out)
+    return _REBOUND_ATTRS[0][1]
+
+
+def n2_alias_locals(fnode, keep=(), rebound=()):
     """-> True when something was rewritten; names in `keep` (the locals the
     function has in the pinned tree) are left alone"""
     params = {a.arg for a in fnode.args.args + fnode.args.kwonlyargs +
@@ -350,6 +369,8 @@ def n2_alias_locals(fnode, keep=()):
                 if any(q[:len(p)] == p or p[:len(q)] == q
                        for q in attr_stores):
                     continue
+                if any(a in rebound for a in p[1:]):
+                    continue              # e.g. a cursor other methods move
                 if stores.get(p[0], 0) > 0 and p[0] not in params:
                     continue
                 if p[0] in params and stores.get(p[0], 0) > 0:
@@ -1227,7 +1248,7 @@ def normalise(model, stats=None):
             if inl.splice(f):
                 count['N3-splice'] += 1
                 any_change = True
-            if n2_alias_locals(f.node, keep):
+            if n2_alias_locals(f.node, keep, rebound_attrs(model)):
                 count['N2'] += 1
                 any_change = True
             if n6_single_use_temps(f.node, keep):
